@@ -859,13 +859,29 @@ func TestVerifProbe_F26(t *testing.T) {
 	}
 	verifhook.Reset()
 	defer verifhook.Reset()
+	// the delete runs beside the transaction and is given 300 ms: since F33 was repaired DeleteDataset
+	// waits for the transaction (which holds the write lock of s) instead of slipping in here
+	delDone := make(chan error, 1)
 	verifhook.SetCallback("txn.afterCommit", func(hit int) {
 		if hit == 1 {
-			if err := h.Dsm.DeleteDataset("s"); err != nil {
-				t.Errorf("VERIF-INFRA delete: %v", err)
+			go func() { delDone <- h.Dsm.DeleteDataset("s") }()
+			select {
+			case err := <-delDone:
+				delDone <- err
+			case <-time.After(300 * time.Millisecond):
 			}
 		}
 	})
+	defer func() {
+		select {
+		case err := <-delDone:
+			if err != nil {
+				t.Errorf("VERIF-INFRA delete: %v", err)
+			}
+		case <-time.After(10 * time.Second):
+			t.Errorf("VERIF-INFRA DeleteDataset did not return")
+		}
+	}()
 	p := h.P[0]
 	err := h.Txn(map[string][]*kit.Ent{
 		"a": {ent(p+":e0", map[string]any{p + ":p0": "x"}, nil, false)},
